@@ -1,6 +1,698 @@
-//! C04 (stub)
+//! C04 — addition, subtraction, negation: exact result and exact carry / overflow report.
+//!
+//! Oracle (num-bigint): s = a + b + carry_in, d = a - b - borrow_in as unbounded integers, W = 2^BITS of
+//! the documented output precision. The result is s mod W (d mod W) and the reported carry /
+//! borrow / overflow / none / panic occurs exactly when the true result is outside [0, W).
+//!
+//! Conventions of the crate that the oracle follows:
+//! * carry words are plain numbers: `adc(a, b, c)` returns (lo, hi) with lo + hi * W = a + b + c for
+//!   *every* carry-in word c (hi can be 2 for a single limb, c = MAX); `mac(a, b, c, k)` returns the
+//!   two words of a + b*c + k.
+//! * a borrow is a word *mask*: 0 = no borrow, all ones (MAX) = borrow. `sbb` returns MAX exactly
+//!   when a - b - borrow_in < 0. The borrow-in is consumed through its most significant bit (that
+//!   is how the only two values the crate produces, 0 and MAX, are decoded); the Limb-level case
+//!   feeds 1, 2, 2^63, MAX and random words and expects "borrow iff top bit set". Uint/BoxedUint
+//!   chains are fed 0 and MAX.
+//! * `carrying_neg` returns the carry of (!a + 1), set iff a = 0.
+//! * BoxedUint: by-value forms (`adc`, `sbb`, `wrapping_*`, `checked_*`, the binary operators with a
+//!   boxed right-hand side, `Wrapping + Wrapping`) widen to the longer operand (W = 2^(64 max(l, r)),
+//!   result has max(l, r) limbs); assigning forms (`adc_assign`, `sbb_assign`, `+=`, `-=`) and the forms
+//!   with a `Uint<N>` / primitive right-hand side (implemented through `+=`) keep the receiver's
+//!   precision. `adc_assign` / `sbb_assign` document a panic when the right-hand side is longer than the
+//!   receiver (asserted with `must_panic!`); the undocumented operators are only used with a
+//!   right-hand side that is not longer than the receiver (see the final report of this module's
+//!   author: `a += &b` with a longer b, and a 1-limb receiver with a `u128`, are left out).
+
 use super::prelude::*;
+use crypto_bigint::subtle::ConditionallyNegatable;
+use crypto_bigint::{Checked, CheckedAdd, CheckedSub, Wrapping, WrappingAdd, WrappingNeg, WrappingSub};
+
+fn wmask(limbs: usize) -> BigUint {
+    mask(64 * limbs as u32)
+}
+
+/// (a + b + k) as (value mod 2^bits, carry word)
+fn add_oracle(a: &BigUint, b: &BigUint, k: &BigUint, bits: u32) -> (BigUint, BigUint) {
+    let s = a + b + k;
+    (&s & mask(bits), &s >> bits)
+}
+
+/// (a - b - k) as (value mod 2^bits, borrowed?) for k in {0, 1}
+fn sub_oracle(a: &BigUint, b: &BigUint, k: u32, bits: u32) -> (BigUint, bool) {
+    let d = BigInt::from(a.clone()) - BigInt::from(b.clone()) - BigInt::from(k);
+    (wrap_unsigned(&d, bits), d < BigInt::zero())
+}
+
+fn borrow_word(b: bool) -> BigUint {
+    if b { mask(64) } else { BigUint::zero() }
+}
+
+/// the limb pattern w0, w1, w0, w1, ... (little endian)
+fn alternating(limbs: usize, w0: u64, w1: u64) -> BigUint {
+    let w: Vec<u64> = (0..limbs).map(|i| if i % 2 == 0 { w0 } else { w1 }).collect();
+    words_to_big(&w)
+}
+
+/// Pair corpus for add/sub of an `l1`-limb with an `l2`-limb value: the generic corpus plus full-width
+/// carry / borrow propagation (MAX + 1, 0 - 1, alternating 0/MAX limbs), sums exactly 2^BITS - 1,
+/// 2^BITS, 2^BITS + 1 (BITS of the wider operand and of the left operand), differences 0, +-1.
+fn add_inputs(c: &mut Ctx, l1: usize, l2: usize) -> Vec<(BigUint, BigUint)> {
+    let mut v = c.inputs2(l1, l2);
+    let (m1, m2) = (wmask(l1), wmask(l2));
+    let one = BigUint::one();
+    let fixed = [
+        (m1.clone(), one.clone()),
+        (one.clone(), m2.clone()),
+        (m1.clone(), m2.clone()),
+        (BigUint::zero(), one.clone()),
+        (BigUint::zero(), m2.clone()),
+        (BigUint::zero(), BigUint::zero()),
+        (m1.clone(), BigUint::zero()),
+        (alternating(l1, 0, u64::MAX), alternating(l2, u64::MAX, 0)),
+        (alternating(l1, u64::MAX, 0), alternating(l2, 0, u64::MAX)),
+        (alternating(l1, u64::MAX, 0), alternating(l2, 1, u64::MAX)),
+        (alternating(l1, 0, u64::MAX), alternating(l2, 0, 1)),
+        (alternating(l1, u64::MAX, 0), one.clone()),
+        (alternating(l1, 0, u64::MAX), alternating(l2, 1, 0)),
+        (pow2(64 * l1 as u32 - 1), pow2(64 * l2 as u32 - 1)),
+        (&m1 >> 1, (&m2 >> 1) + 1u32),
+    ];
+    v.extend(fixed);
+    for round in 0..(48 + c.iters / 8) {
+        let a = if round % 3 == 0 { c.rnd(l1) } else { words_to_big(&(0..l1).map(|_| c.edgy_word()).collect::<Vec<_>>()) };
+        // sums at the boundaries of both candidate output widths
+        for bits in [64 * l1 as u32, 64 * l1.max(l2) as u32] {
+            for t in [mask(bits), pow2(bits), pow2(bits) + 1u32, mask(bits) - 1u32] {
+                if t >= a {
+                    let b = &t - &a;
+                    if b <= m2 {
+                        v.push((a.clone(), b));
+                    }
+                }
+            }
+        }
+        // differences 0, +1, -1 and a borrow that ripples through zero limbs
+        let b = &a & &m2;
+        v.push((a.clone(), b.clone()));
+        v.push((a.clone(), (&b + 1u32) & &m2));
+        if !b.is_zero() {
+            v.push((a.clone(), &b - 1u32));
+        }
+        let k = c.below(64 * l1);
+        v.push((pow2(k as u32), one.clone()));
+        v.push((pow2(k as u32), pow2(c.below(64 * l2) as u32)));
+        v.push((mask(k as u32 + 1), one.clone()));
+    }
+    v
+}
+
+fn neg_inputs(c: &mut Ctx, l: usize) -> Vec<BigUint> {
+    let mut v = c.inputs1(l);
+    v.extend([alternating(l, 0, u64::MAX), alternating(l, u64::MAX, 0), alternating(l, 0, 1), pow2(64 * l as u32 - 1)]);
+    for k in 0..64 * l as u32 {
+        if k % 5 == 0 || k % 64 >= 62 || k % 64 == 0 {
+            v.push(pow2(k));
+            v.push(mask(k + 1));
+        }
+    }
+    v
+}
+
+const CARRIES: [u64; 6] = [0, 1, 2, u64::MAX, 1 << 63, u64::MAX - 1];
+
+macro_rules! panics_iff {
+    ($c:expr, $ok:expr, $got:expr, $exp:expr; $($n:ident),*) => {
+        if $ok {
+            check!($c, $got, $exp; $($n),*);
+        } else {
+            must_panic!($c, $got; $($n),*);
+        }
+    };
+}
+
+// ---------------------------------------------------------------- Limb
+
+fn limb_words(c: &mut Ctx) -> Vec<u64> {
+    let mut w: Vec<u64> = crate::generate::ALPHA.to_vec();
+    w.extend([3, u32::MAX as u64, (1 << 32) + 1, u64::MAX - 2, (1 << 63) - 2]);
+    w.push(c.word());
+    w.push(c.word() | 1 << 63);
+    w
+}
+
+fn limb_triples(c: &mut Ctx) -> Vec<(u64, u64, u64)> {
+    let w = limb_words(c);
+    let mut v = Vec::new();
+    for &a in &w {
+        for &b in &w {
+            for &k in &w {
+                v.push((a, b, k));
+            }
+        }
+    }
+    for _ in 0..c.iters {
+        let a = c.edgy_word();
+        let k = CARRIES[c.below(CARRIES.len())];
+        v.push((a, c.edgy_word(), k));
+        v.push((a, !a, k));
+        v.push((a, a.wrapping_neg(), k));
+        v.push((a, a, k));
+        v.push((a, a.wrapping_add(1), k));
+        v.push((a, a.wrapping_sub(1), c.word()));
+    }
+    v
+}
+
+fn limb_adc(c: &mut Ctx) {
+    for (a, b, k) in limb_triples(c) {
+        if c.done() {
+            return;
+        }
+        let (ba, bb, bk) = (BigUint::from(a), BigUint::from(b), BigUint::from(k));
+        let exp = add_oracle(&ba, &bb, &bk, 64);
+        check!(c, call(|| Limb(a).adc(Limb(b), Limb(k))).map(|(r, k)| (lb(r), lb(k))), exp; ba, bb, bk);
+    }
+}
+
+fn limb_sbb(c: &mut Ctx) {
+    for (a, b, k) in limb_triples(c) {
+        if c.done() {
+            return;
+        }
+        let (ba, bb, bk) = (BigUint::from(a), BigUint::from(b), BigUint::from(k));
+        // borrow mask convention: the incoming borrow is the top bit of the word
+        let (r, out) = sub_oracle(&ba, &bb, (k >> 63) as u32, 64);
+        check!(c, call(|| Limb(a).sbb(Limb(b), Limb(k))).map(|(r, k)| (lb(r), lb(k))), (r, borrow_word(out)); ba, bb, bk);
+    }
+}
+
+fn limb_mac(c: &mut Ctx) {
+    let w = limb_words(c);
+    let mut v = Vec::new();
+    for &a in &w {
+        for &b in &w {
+            for &m in &w {
+                for &k in &w {
+                    v.push((a, b, m, k));
+                }
+            }
+        }
+    }
+    for _ in 0..c.iters {
+        v.push((c.edgy_word(), c.edgy_word(), c.edgy_word(), CARRIES[c.below(CARRIES.len())]));
+    }
+    for (a, b, m, k) in v {
+        if c.done() {
+            return;
+        }
+        let (ba, bb, bm, bk) = (BigUint::from(a), BigUint::from(b), BigUint::from(m), BigUint::from(k));
+        let t = &ba + &bb * &bm + &bk;
+        let exp = (&t & mask(64), &t >> 64);
+        check!(c, call(|| Limb(a).mac(Limb(b), Limb(m), Limb(k))).map(|(lo, hi)| (lb(lo), lb(hi))), exp; ba, bb, bm, bk);
+    }
+}
+
+fn limb_forms(c: &mut Ctx) {
+    for (a, b, _) in limb_triples(c) {
+        if c.done() {
+            return;
+        }
+        let (x, y) = (Limb(a), Limb(b));
+        let (a, b) = (BigUint::from(a), BigUint::from(b));
+        let (sum, carry) = add_oracle(&a, &b, &BigUint::zero(), 64);
+        let (dif, borrow) = sub_oracle(&a, &b, 0, 64);
+        let (sfit, dfit) = (carry.is_zero(), !borrow);
+        check!(c, call(|| x.overflowing_add(y)).map(|(r, k)| (lb(r), lb(k))), (sum.clone(), carry.clone()); a, b);
+        check!(c, call(|| x.wrapping_add(y)).map(lb), sum.clone(); a, b);
+        check!(c, call(|| WrappingAdd::wrapping_add(&x, &y)).map(lb), sum.clone(); a, b);
+        check!(c, call(|| x.saturating_add(y)).map(lb), if sfit { sum.clone() } else { mask(64) }; a, b);
+        let sexp = if sfit { Some(sum.clone()) } else { None };
+        check!(c, call(|| opt(x.checked_add(&y))).map(|r| r.map(lb)), sexp.clone(); a, b);
+        panics_iff!(c, sfit, call(|| x + y).map(lb), sum.clone(); a, b);
+        check!(c, call(|| x.wrapping_sub(y)).map(lb), dif.clone(); a, b);
+        check!(c, call(|| WrappingSub::wrapping_sub(&x, &y)).map(lb), dif.clone(); a, b);
+        check!(c, call(|| x.saturating_sub(y)).map(lb), if dfit { dif.clone() } else { BigUint::zero() }; a, b);
+        let dexp = if dfit { Some(dif.clone()) } else { None };
+        check!(c, call(|| opt(x.checked_sub(&y))).map(|r| r.map(lb)), dexp.clone(); a, b);
+        panics_iff!(c, dfit, call(|| x - y).map(lb), dif.clone(); a, b);
+        panics_iff!(c, dfit, call(|| x - &y).map(lb), dif.clone(); a, b);
+        let neg = wrap_unsigned(&-BigInt::from(a.clone()), 64);
+        check!(c, call(|| x.wrapping_neg()).map(lb), neg.clone(); a);
+        check!(c, call(|| WrappingNeg::wrapping_neg(&x)).map(lb), neg.clone(); a);
+        // Wrapping<Limb>
+        let (wx, wy) = (Wrapping(x), Wrapping(y));
+        check!(c, call(|| wx + wy).map(|r| lb(r.0)), sum.clone(); a, b);
+        check!(c, call(|| wx + &wy).map(|r| lb(r.0)), sum.clone(); a, b);
+        check!(c, call(|| &wx + wy).map(|r| lb(r.0)), sum.clone(); a, b);
+        check!(c, call(|| &wx + &wy).map(|r| lb(r.0)), sum.clone(); a, b);
+        check!(c, call(|| { let mut t = wx; t += wy; t }).map(|r| lb(r.0)), sum.clone(); a, b);
+        check!(c, call(|| { let mut t = wx; t += &wy; t }).map(|r| lb(r.0)), sum.clone(); a, b);
+        check!(c, call(|| wx - wy).map(|r| lb(r.0)), dif.clone(); a, b);
+        check!(c, call(|| wx - &wy).map(|r| lb(r.0)), dif.clone(); a, b);
+        check!(c, call(|| &wx - wy).map(|r| lb(r.0)), dif.clone(); a, b);
+        check!(c, call(|| &wx - &wy).map(|r| lb(r.0)), dif.clone(); a, b);
+        check!(c, call(|| { let mut t = wx; t -= wy; t }).map(|r| lb(r.0)), dif.clone(); a, b);
+        check!(c, call(|| { let mut t = wx; t -= &wy; t }).map(|r| lb(r.0)), dif.clone(); a, b);
+        check!(c, call(|| -wx).map(|r| lb(r.0)), neg.clone(); a);
+        check!(c, call(|| -&wx).map(|r| lb(r.0)), neg; a);
+        // Checked<Limb>
+        let ob = |r: Checked<Limb>| opt(r.0).map(lb);
+        let (cx, cy) = (Checked::new(x), Checked::new(y));
+        check!(c, call(|| cx + cy).map(ob), sexp.clone(); a, b);
+        check!(c, call(|| cx + &cy).map(ob), sexp.clone(); a, b);
+        check!(c, call(|| &cx + cy).map(ob), sexp.clone(); a, b);
+        check!(c, call(|| &cx + &cy).map(ob), sexp.clone(); a, b);
+        check!(c, call(|| { let mut t = cx; t += cy; t }).map(ob), sexp.clone(); a, b);
+        check!(c, call(|| { let mut t = cx; t += &cy; t }).map(ob), sexp; a, b);
+        check!(c, call(|| cx - cy).map(ob), dexp.clone(); a, b);
+        check!(c, call(|| cx - &cy).map(ob), dexp.clone(); a, b);
+        check!(c, call(|| &cx - cy).map(ob), dexp.clone(); a, b);
+        check!(c, call(|| &cx - &cy).map(ob), dexp.clone(); a, b);
+        check!(c, call(|| { let mut t = cx; t -= cy; t }).map(ob), dexp.clone(); a, b);
+        check!(c, call(|| { let mut t = cx; t -= &cy; t }).map(ob), dexp; a, b);
+        let none = Checked(CtOption::new(x, Choice::from(0)));
+        let e: Option<BigUint> = None;
+        check!(c, call(|| none + cy).map(ob), e.clone(); a, b);
+        check!(c, call(|| cy + none).map(ob), e.clone(); a, b);
+        check!(c, call(|| none - cy).map(ob), e.clone(); a, b);
+        check!(c, call(|| cy - none).map(ob), e; a, b);
+    }
+}
+
+// ---------------------------------------------------------------- Uint
+
+fn adc_sbb<const L: usize>(c: &mut Ctx) {
+    let bits = 64 * L as u32;
+    for (i, (a, b)) in add_inputs(c, L, L).into_iter().enumerate() {
+        if c.done() {
+            return;
+        }
+        let (x, y) = (bu::<L>(&a), bu::<L>(&b));
+        // carry-in 0 and 1 always, a larger carry word in rotation
+        for k in [0, 1, CARRIES[2 + i % 4]] {
+            let bk = BigUint::from(k);
+            check!(c, call(|| x.adc(&y, Limb(k))).map(|(r, k)| (ub(&r), lb(k))), add_oracle(&a, &b, &bk, bits); a, b, bk);
+        }
+        for k in [0u32, 1] {
+            let (r, out) = sub_oracle(&a, &b, k, bits);
+            let bin = if k == 1 { Limb::MAX } else { Limb::ZERO };
+            check!(c, call(|| x.sbb(&y, bin)).map(|(r, k)| (ub(&r), lb(k))), (r, borrow_word(out)); a, b, k);
+        }
+    }
+}
+
+fn wrapping_checked_saturating<const L: usize>(c: &mut Ctx) {
+    let bits = 64 * L as u32;
+    for (a, b) in add_inputs(c, L, L) {
+        if c.done() {
+            return;
+        }
+        let (x, y) = (bu::<L>(&a), bu::<L>(&b));
+        let (sum, carry) = add_oracle(&a, &b, &BigUint::zero(), bits);
+        let (dif, borrow) = sub_oracle(&a, &b, 0, bits);
+        let (sfit, dfit) = (carry.is_zero(), !borrow);
+        check!(c, call(|| x.wrapping_add(&y)).map(|r| ub(&r)), sum.clone(); a, b);
+        check!(c, call(|| WrappingAdd::wrapping_add(&x, &y)).map(|r| ub(&r)), sum.clone(); a, b);
+        check!(c, call(|| x.saturating_add(&y)).map(|r| ub(&r)), if sfit { sum.clone() } else { wmask(L) }; a, b);
+        check!(c, call(|| opt(x.checked_add(&y))).map(|r| r.map(|r| ub(&r))), if sfit { Some(sum) } else { None }; a, b);
+        check!(c, call(|| x.wrapping_sub(&y)).map(|r| ub(&r)), dif.clone(); a, b);
+        check!(c, call(|| WrappingSub::wrapping_sub(&x, &y)).map(|r| ub(&r)), dif.clone(); a, b);
+        check!(c, call(|| x.saturating_sub(&y)).map(|r| ub(&r)), if dfit { dif.clone() } else { BigUint::zero() }; a, b);
+        check!(c, call(|| opt(x.checked_sub(&y))).map(|r| r.map(|r| ub(&r))), if dfit { Some(dif) } else { None }; a, b);
+    }
+}
+
+fn negation<const L: usize>(c: &mut Ctx) {
+    let bits = 64 * L as u32;
+    for a in neg_inputs(c, L) {
+        if c.done() {
+            return;
+        }
+        let x = bu::<L>(&a);
+        let neg = wrap_unsigned(&-BigInt::from(a.clone()), bits);
+        check!(c, call(|| x.wrapping_neg()).map(|r| ub(&r)), neg.clone(); a);
+        check!(c, call(|| WrappingNeg::wrapping_neg(&x)).map(|r| ub(&r)), neg.clone(); a);
+        check!(c, call(|| x.carrying_neg()).map(|(r, k)| (ub(&r), ccb(k))), (neg.clone(), a.is_zero()); a);
+        check!(c, call(|| x.wrapping_neg_if(ConstChoice::TRUE)).map(|r| ub(&r)), neg.clone(); a);
+        check!(c, call(|| x.wrapping_neg_if(ConstChoice::FALSE)).map(|r| ub(&r)), a.clone(); a);
+        check!(c, call(|| -Wrapping(x)).map(|r| ub(&r.0)), neg.clone(); a);
+        check!(c, call(|| -&Wrapping(x)).map(|r| ub(&r.0)), neg; a);
+    }
+}
+
+fn operators<const L: usize>(c: &mut Ctx) {
+    let bits = 64 * L as u32;
+    for (a, b) in add_inputs(c, L, L) {
+        if c.done() {
+            return;
+        }
+        let (x, y) = (bu::<L>(&a), bu::<L>(&b));
+        let (sum, carry) = add_oracle(&a, &b, &BigUint::zero(), bits);
+        let (dif, borrow) = sub_oracle(&a, &b, 0, bits);
+        let (sfit, dfit) = (carry.is_zero(), !borrow);
+        panics_iff!(c, sfit, call(|| x + y).map(|r| ub(&r)), sum.clone(); a, b);
+        panics_iff!(c, sfit, call(|| x + &y).map(|r| ub(&r)), sum.clone(); a, b);
+        panics_iff!(c, sfit, call(|| { let mut t = x; t += y; t }).map(|r| ub(&r)), sum.clone(); a, b);
+        panics_iff!(c, sfit, call(|| { let mut t = x; t += &y; t }).map(|r| ub(&r)), sum.clone(); a, b);
+        panics_iff!(c, dfit, call(|| x - y).map(|r| ub(&r)), dif.clone(); a, b);
+        panics_iff!(c, dfit, call(|| x - &y).map(|r| ub(&r)), dif.clone(); a, b);
+        panics_iff!(c, dfit, call(|| { let mut t = x; t -= y; t }).map(|r| ub(&r)), dif.clone(); a, b);
+        panics_iff!(c, dfit, call(|| { let mut t = x; t -= &y; t }).map(|r| ub(&r)), dif.clone(); a, b);
+    }
+}
+
+fn wrapping_wrapper<const L: usize>(c: &mut Ctx) {
+    let bits = 64 * L as u32;
+    for (a, b) in add_inputs(c, L, L) {
+        if c.done() {
+            return;
+        }
+        let (x, y) = (Wrapping(bu::<L>(&a)), Wrapping(bu::<L>(&b)));
+        let sum = add_oracle(&a, &b, &BigUint::zero(), bits).0;
+        let dif = sub_oracle(&a, &b, 0, bits).0;
+        check!(c, call(|| x + y).map(|r| ub(&r.0)), sum.clone(); a, b);
+        check!(c, call(|| x + &y).map(|r| ub(&r.0)), sum.clone(); a, b);
+        check!(c, call(|| &x + y).map(|r| ub(&r.0)), sum.clone(); a, b);
+        check!(c, call(|| &x + &y).map(|r| ub(&r.0)), sum.clone(); a, b);
+        check!(c, call(|| { let mut t = x; t += y; t }).map(|r| ub(&r.0)), sum.clone(); a, b);
+        check!(c, call(|| { let mut t = x; t += &y; t }).map(|r| ub(&r.0)), sum; a, b);
+        check!(c, call(|| x - y).map(|r| ub(&r.0)), dif.clone(); a, b);
+        check!(c, call(|| x - &y).map(|r| ub(&r.0)), dif.clone(); a, b);
+        check!(c, call(|| &x - y).map(|r| ub(&r.0)), dif.clone(); a, b);
+        check!(c, call(|| &x - &y).map(|r| ub(&r.0)), dif.clone(); a, b);
+        check!(c, call(|| { let mut t = x; t -= y; t }).map(|r| ub(&r.0)), dif.clone(); a, b);
+        check!(c, call(|| { let mut t = x; t -= &y; t }).map(|r| ub(&r.0)), dif; a, b);
+    }
+}
+
+fn checked_wrapper<const L: usize>(c: &mut Ctx) {
+    let bits = 64 * L as u32;
+    let ob = |r: Checked<Uint<L>>| opt(r.0).map(|r| ub(&r));
+    for (a, b) in add_inputs(c, L, L) {
+        if c.done() {
+            return;
+        }
+        let (x, y) = (Checked::new(bu::<L>(&a)), Checked::new(bu::<L>(&b)));
+        let (sum, carry) = add_oracle(&a, &b, &BigUint::zero(), bits);
+        let (dif, borrow) = sub_oracle(&a, &b, 0, bits);
+        let sexp = if carry.is_zero() { Some(sum) } else { None };
+        let dexp = if !borrow { Some(dif) } else { None };
+        check!(c, call(|| x + y).map(ob), sexp.clone(); a, b);
+        check!(c, call(|| x + &y).map(ob), sexp.clone(); a, b);
+        check!(c, call(|| &x + y).map(ob), sexp.clone(); a, b);
+        check!(c, call(|| &x + &y).map(ob), sexp.clone(); a, b);
+        check!(c, call(|| { let mut t = x; t += y; t }).map(ob), sexp.clone(); a, b);
+        check!(c, call(|| { let mut t = x; t += &y; t }).map(ob), sexp.clone(); a, b);
+        check!(c, call(|| x - y).map(ob), dexp.clone(); a, b);
+        check!(c, call(|| x - &y).map(ob), dexp.clone(); a, b);
+        check!(c, call(|| &x - y).map(ob), dexp.clone(); a, b);
+        check!(c, call(|| &x - &y).map(ob), dexp.clone(); a, b);
+        check!(c, call(|| { let mut t = x; t -= y; t }).map(ob), dexp.clone(); a, b);
+        check!(c, call(|| { let mut t = x; t -= &y; t }).map(ob), dexp.clone(); a, b);
+        // sticky none: once an operand is none the result is none, also when a later step "fits"
+        let none = Checked(CtOption::new(bu::<L>(&a), Choice::from(0)));
+        let e: Option<BigUint> = None;
+        check!(c, call(|| none + y).map(ob), e.clone(); a, b);
+        check!(c, call(|| y + none).map(ob), e.clone(); a, b);
+        check!(c, call(|| none - y).map(ob), e.clone(); a, b);
+        check!(c, call(|| y - none).map(ob), e.clone(); a, b);
+        check!(c, call(|| { let mut t = none; t += y; t }).map(ob), e.clone(); a, b);
+        check!(c, call(|| { let mut t = y; t -= &none; t }).map(ob), e.clone(); a, b);
+        // (a + b) - b: none iff the addition overflowed, else a
+        let chain = if sexp.is_some() { Some(a.clone()) } else { None };
+        check!(c, call(|| (x + y) - y).map(ob), chain; a, b);
+        // (a - b) + b
+        let chain = if dexp.is_some() { Some(a.clone()) } else { None };
+        check!(c, call(|| (x - y) + y).map(ob), chain; a, b);
+    }
+}
+
+// ---------------------------------------------------------------- BoxedUint
+
+fn shape(r: &BoxedUint) -> (BigUint, usize) {
+    (xb(r), r.nlimbs())
+}
+
+/// by-value forms with a boxed right-hand side of any precision: widened to max(nl, rl) limbs
+fn boxed_by_value_forms(c: &mut Ctx, a: &BigUint, b: &BigUint, nl: usize, rl: usize, i: usize) {
+    let (a, b) = (a.clone(), b.clone());
+    let (x, y) = (bx(&a, nl), bx(&b, rl));
+    let ol = nl.max(rl);
+    let bits = 64 * ol as u32;
+    for k in [0, 1, CARRIES[2 + i % 4]] {
+        let bk = BigUint::from(k);
+        let (r, out) = add_oracle(&a, &b, &bk, bits);
+        check!(c, call(|| x.adc(&y, Limb(k))).map(|(r, k)| (shape(&r), lb(k))), ((r, ol), out); a, b, bk, nl, rl);
+    }
+    for k in [0u32, 1] {
+        let (r, out) = sub_oracle(&a, &b, k, bits);
+        let bin = if k == 1 { Limb::MAX } else { Limb::ZERO };
+        check!(c, call(|| x.sbb(&y, bin)).map(|(r, k)| (shape(&r), lb(k))), ((r, ol), borrow_word(out)); a, b, k, nl, rl);
+    }
+    let (sum, carry) = add_oracle(&a, &b, &BigUint::zero(), bits);
+    let (dif, borrow) = sub_oracle(&a, &b, 0, bits);
+    let (sfit, dfit) = (carry.is_zero(), !borrow);
+    check!(c, call(|| x.wrapping_add(&y)).map(|r| shape(&r)), (sum.clone(), ol); a, b, nl, rl);
+    check!(c, call(|| WrappingAdd::wrapping_add(&x, &y)).map(|r| shape(&r)), (sum.clone(), ol); a, b, nl, rl);
+    check!(c, call(|| opt(x.checked_add(&y))).map(|r| r.map(|r| shape(&r))), if sfit { Some((sum.clone(), ol)) } else { None }; a, b, nl, rl);
+    check!(c, call(|| x.wrapping_sub(&y)).map(|r| shape(&r)), (dif.clone(), ol); a, b, nl, rl);
+    check!(c, call(|| WrappingSub::wrapping_sub(&x, &y)).map(|r| shape(&r)), (dif.clone(), ol); a, b, nl, rl);
+    check!(c, call(|| opt(x.checked_sub(&y))).map(|r| r.map(|r| shape(&r))), if dfit { Some((dif.clone(), ol)) } else { None }; a, b, nl, rl);
+    // operators: all four reference forms are `checked_*(..).expect(..)`
+    panics_iff!(c, sfit, call(|| &x + &y).map(|r| shape(&r)), (sum.clone(), ol); a, b, nl, rl);
+    panics_iff!(c, sfit, call(|| x.clone() + &y).map(|r| shape(&r)), (sum.clone(), ol); a, b, nl, rl);
+    panics_iff!(c, sfit, call(|| &x + y.clone()).map(|r| shape(&r)), (sum.clone(), ol); a, b, nl, rl);
+    panics_iff!(c, sfit, call(|| x.clone() + y.clone()).map(|r| shape(&r)), (sum.clone(), ol); a, b, nl, rl);
+    panics_iff!(c, dfit, call(|| &x - &y).map(|r| shape(&r)), (dif.clone(), ol); a, b, nl, rl);
+    panics_iff!(c, dfit, call(|| x.clone() - &y).map(|r| shape(&r)), (dif.clone(), ol); a, b, nl, rl);
+    panics_iff!(c, dfit, call(|| &x - y.clone()).map(|r| shape(&r)), (dif.clone(), ol); a, b, nl, rl);
+    panics_iff!(c, dfit, call(|| x.clone() - y.clone()).map(|r| shape(&r)), (dif.clone(), ol); a, b, nl, rl);
+    // Wrapping<BoxedUint> binary operators = wrapping_add / wrapping_sub
+    let (wx, wy) = (Wrapping(x.clone()), Wrapping(y.clone()));
+    check!(c, call(|| &wx + &wy).map(|r| shape(&r.0)), (sum.clone(), ol); a, b, nl, rl);
+    check!(c, call(|| wx.clone() + &wy).map(|r| shape(&r.0)), (sum.clone(), ol); a, b, nl, rl);
+    check!(c, call(|| &wx + wy.clone()).map(|r| shape(&r.0)), (sum.clone(), ol); a, b, nl, rl);
+    check!(c, call(|| wx.clone() + wy.clone()).map(|r| shape(&r.0)), (sum, ol); a, b, nl, rl);
+    check!(c, call(|| &wx - &wy).map(|r| shape(&r.0)), (dif.clone(), ol); a, b, nl, rl);
+    check!(c, call(|| wx.clone() - &wy).map(|r| shape(&r.0)), (dif.clone(), ol); a, b, nl, rl);
+    check!(c, call(|| &wx - wy.clone()).map(|r| shape(&r.0)), (dif.clone(), ol); a, b, nl, rl);
+    check!(c, call(|| wx.clone() - wy.clone()).map(|r| shape(&r.0)), (dif, ol); a, b, nl, rl);
+}
+
+/// assigning forms: receiver precision; rhs not longer than the receiver
+fn boxed_assign_forms(c: &mut Ctx, a: &BigUint, b: &BigUint, nl: usize, rl: usize, i: usize) {
+    assert!(rl <= nl);
+    let (a, b) = (a.clone(), b.clone());
+    let (x, y) = (bx(&a, nl), bx(&b, rl));
+    let bits = 64 * nl as u32;
+    for k in [0, 1, CARRIES[2 + i % 4]] {
+        let bk = BigUint::from(k);
+        let (r, out) = add_oracle(&a, &b, &bk, bits);
+        check!(c, call(|| { let mut t = x.clone(); let k = t.adc_assign(&y, Limb(k)); (t, k) }).map(|(r, k)| (shape(&r), lb(k))), ((r.clone(), nl), out.clone()); a, b, bk, nl, rl);
+        check!(c, call(|| { let mut t = x.clone(); let k = t.adc_assign(y.as_limbs(), Limb(k)); (t, k) }).map(|(r, k)| (shape(&r), lb(k))), ((r, nl), out); a, b, bk, nl, rl);
+    }
+    for k in [0u32, 1] {
+        let (r, out) = sub_oracle(&a, &b, k, bits);
+        let bin = if k == 1 { Limb::MAX } else { Limb::ZERO };
+        check!(c, call(|| { let mut t = x.clone(); let k = t.sbb_assign(&y, bin); (t, k) }).map(|(r, k)| (shape(&r), lb(k))), ((r.clone(), nl), borrow_word(out)); a, b, k, nl, rl);
+        check!(c, call(|| { let mut t = x.clone(); let k = t.sbb_assign(y.as_limbs(), bin); (t, k) }).map(|(r, k)| (shape(&r), lb(k))), ((r, nl), borrow_word(out)); a, b, k, nl, rl);
+    }
+    let (sum, carry) = add_oracle(&a, &b, &BigUint::zero(), bits);
+    let (dif, borrow) = sub_oracle(&a, &b, 0, bits);
+    let (sfit, dfit) = (carry.is_zero(), !borrow);
+    panics_iff!(c, sfit, call(|| { let mut t = x.clone(); t += &y; t }).map(|r| shape(&r)), (sum.clone(), nl); a, b, nl, rl);
+    panics_iff!(c, sfit, call(|| { let mut t = x.clone(); t += y.clone(); t }).map(|r| shape(&r)), (sum.clone(), nl); a, b, nl, rl);
+    panics_iff!(c, dfit, call(|| { let mut t = x.clone(); t -= &y; t }).map(|r| shape(&r)), (dif.clone(), nl); a, b, nl, rl);
+    panics_iff!(c, dfit, call(|| { let mut t = x.clone(); t -= y.clone(); t }).map(|r| shape(&r)), (dif.clone(), nl); a, b, nl, rl);
+    let (wx, wy) = (Wrapping(x.clone()), Wrapping(y.clone()));
+    check!(c, call(|| { let mut t = wx.clone(); t += &wy; t }).map(|r| shape(&r.0)), (sum.clone(), nl); a, b, nl, rl);
+    check!(c, call(|| { let mut t = wx.clone(); t += wy.clone(); t }).map(|r| shape(&r.0)), (sum, nl); a, b, nl, rl);
+    check!(c, call(|| { let mut t = wx.clone(); t -= &wy; t }).map(|r| shape(&r.0)), (dif.clone(), nl); a, b, nl, rl);
+    check!(c, call(|| { let mut t = wx.clone(); t -= wy.clone(); t }).map(|r| shape(&r.0)), (dif, nl); a, b, nl, rl);
+}
+
+fn boxed_by_value(c: &mut Ctx) {
+    for nl in 1..=4usize {
+        for rl in 1..=4usize {
+            for (i, (a, b)) in c.scaled(16, |c| add_inputs(c, nl, rl)).into_iter().enumerate() {
+                if c.done() {
+                    return;
+                }
+                boxed_by_value_forms(c, &a, &b, nl, rl, i);
+            }
+        }
+    }
+}
+
+fn boxed_assign(c: &mut Ctx) {
+    for nl in 1..=4usize {
+        for rl in 1..=nl {
+            for (i, (a, b)) in c.scaled(10, |c| add_inputs(c, nl, rl)).into_iter().enumerate() {
+                if c.done() {
+                    return;
+                }
+                boxed_assign_forms(c, &a, &b, nl, rl, i);
+            }
+        }
+    }
+}
+
+/// `adc_assign` / `sbb_assign`: "Panics if `rhs` has a larger precision than `self`."
+fn boxed_assign_longer_rhs(c: &mut Ctx) {
+    for (nl, rl) in [(1usize, 2usize), (1, 3), (2, 3), (2, 4), (3, 4), (4, 5), (1, 40)] {
+        for (a, b) in c.scaled(64, |c| add_inputs(c, nl, rl)) {
+            if c.done() {
+                return;
+            }
+            let (x, y) = (bx(&a, nl), bx(&b, rl));
+            must_panic!(c, call(|| { let mut t = x.clone(); let k = t.adc_assign(&y, Limb::ZERO); (xb(&t), lb(k)) }); a, b, nl, rl);
+            must_panic!(c, call(|| { let mut t = x.clone(); let k = t.sbb_assign(&y, Limb::ZERO); (xb(&t), lb(k)) }); a, b, nl, rl);
+            must_panic!(c, call(|| { let mut t = x.clone(); let k = t.adc_assign(y.as_limbs(), Limb::ONE); (xb(&t), lb(k)) }); a, b, nl, rl);
+            must_panic!(c, call(|| { let mut t = x.clone(); let k = t.sbb_assign(y.as_limbs(), Limb::MAX); (xb(&t), lb(k)) }); a, b, nl, rl);
+        }
+    }
+}
+
+/// larger and more unequal precisions, fewer inputs
+fn boxed_large(c: &mut Ctx) {
+    let shapes = [(5usize, 5usize), (8, 3), (3, 8), (7, 6), (16, 17), (17, 16), (33, 32), (40, 40), (40, 1), (1, 40), (33, 40), (40, 39)];
+    for (nl, rl) in shapes {
+        for (i, (a, b)) in c.scaled(32, |c| add_inputs(c, nl, rl)).into_iter().enumerate() {
+            if c.done() {
+                return;
+            }
+            boxed_by_value_forms(c, &a, &b, nl, rl, i);
+            if rl <= nl {
+                boxed_assign_forms(c, &a, &b, nl, rl, i);
+            }
+        }
+    }
+}
+
+/// BoxedUint with a `Uint<N>` right-hand side (N <= nlimbs): all forms go through `+=` / `-=`, i.e.
+/// the receiver's precision; panic exactly on overflow / underflow.
+fn boxed_uint_rhs<const N: usize>(c: &mut Ctx) {
+    for nl in [N, N + 1, 4.max(N), 9.max(N + 2)] {
+        for (a, b) in c.scaled(6, |c| add_inputs(c, nl, N)) {
+            if c.done() {
+                return;
+            }
+            let (x, y) = (bx(&a, nl), bu::<N>(&b));
+            let bits = 64 * nl as u32;
+            let (sum, carry) = add_oracle(&a, &b, &BigUint::zero(), bits);
+            let (dif, borrow) = sub_oracle(&a, &b, 0, bits);
+            let (sfit, dfit) = (carry.is_zero(), !borrow);
+            panics_iff!(c, sfit, call(|| x.clone() + y).map(|r| shape(&r)), (sum.clone(), nl); a, b, nl);
+            panics_iff!(c, sfit, call(|| x.clone() + &y).map(|r| shape(&r)), (sum.clone(), nl); a, b, nl);
+            panics_iff!(c, sfit, call(|| &x + y).map(|r| shape(&r)), (sum.clone(), nl); a, b, nl);
+            panics_iff!(c, sfit, call(|| &x + &y).map(|r| shape(&r)), (sum.clone(), nl); a, b, nl);
+            panics_iff!(c, sfit, call(|| { let mut t = x.clone(); t += y; t }).map(|r| shape(&r)), (sum.clone(), nl); a, b, nl);
+            panics_iff!(c, sfit, call(|| { let mut t = x.clone(); t += &y; t }).map(|r| shape(&r)), (sum, nl); a, b, nl);
+            panics_iff!(c, dfit, call(|| x.clone() - y).map(|r| shape(&r)), (dif.clone(), nl); a, b, nl);
+            panics_iff!(c, dfit, call(|| x.clone() - &y).map(|r| shape(&r)), (dif.clone(), nl); a, b, nl);
+            panics_iff!(c, dfit, call(|| &x - y).map(|r| shape(&r)), (dif.clone(), nl); a, b, nl);
+            panics_iff!(c, dfit, call(|| &x - &y).map(|r| shape(&r)), (dif.clone(), nl); a, b, nl);
+            panics_iff!(c, dfit, call(|| { let mut t = x.clone(); t -= y; t }).map(|r| shape(&r)), (dif.clone(), nl); a, b, nl);
+            panics_iff!(c, dfit, call(|| { let mut t = x.clone(); t -= &y; t }).map(|r| shape(&r)), (dif, nl); a, b, nl);
+        }
+    }
+}
+
+/// the three operator forms of one primitive type
+macro_rules! prim_forms {
+    ($c:expr, $x:expr, $p:expr, $sfit:expr, $dfit:expr, $sum:expr, $dif:expr, $nl:expr; $($n:ident),*) => {{
+        let (x, p, nl) = (&$x, $p, $nl);
+        panics_iff!($c, $sfit, call(|| x.clone() + p).map(|r| shape(&r)), ($sum.clone(), nl); $($n),*);
+        panics_iff!($c, $sfit, call(|| x + p).map(|r| shape(&r)), ($sum.clone(), nl); $($n),*);
+        panics_iff!($c, $sfit, call(|| { let mut t = x.clone(); t += p; t }).map(|r| shape(&r)), ($sum.clone(), nl); $($n),*);
+        panics_iff!($c, $dfit, call(|| x.clone() - p).map(|r| shape(&r)), ($dif.clone(), nl); $($n),*);
+        panics_iff!($c, $dfit, call(|| x - p).map(|r| shape(&r)), ($dif.clone(), nl); $($n),*);
+        panics_iff!($c, $dfit, call(|| { let mut t = x.clone(); t -= p; t }).map(|r| shape(&r)), ($dif.clone(), nl); $($n),*);
+    }};
+}
+
+/// BoxedUint with u8 / u16 / u32 / u64 / u128 right-hand sides (u128 only for receivers of >= 2 limbs).
+fn boxed_primitive_rhs(c: &mut Ctx) {
+    for nl in [1usize, 2, 3, 4, 17] {
+        for pbits in [8u32, 16, 32, 64, 128] {
+            if pbits == 128 && nl < 2 {
+                continue;
+            }
+            let pl = if pbits == 128 { 2 } else { 1 };
+            let mut v = c.scaled(24, |c| add_inputs(c, nl, pl));
+            // small right-hand sides against receivers at the top / bottom of their range
+            for _ in 0..(c.iters / 16).max(8) {
+                let p = BigUint::from(c.edgy_word()) | (BigUint::from(c.edgy_word()) << 64);
+                v.push((wmask(nl) - (&p & mask(pbits.min(64 * nl as u32))), p.clone()));
+                v.push((&p & mask(pbits) & wmask(nl), p.clone()));
+                v.push((wmask(nl), p.clone()));
+                v.push((c.rnd(nl), p));
+            }
+            for (a, b) in v {
+                if c.done() {
+                    return;
+                }
+                // the primitive keeps its low `pbits` bits (also shifted-down variants to hit small values)
+                let b = &b & mask(pbits);
+                let x = bx(&a, nl);
+                let bits = 64 * nl as u32;
+                let (sum, carry) = add_oracle(&a, &b, &BigUint::zero(), bits);
+                let (dif, borrow) = sub_oracle(&a, &b, 0, bits);
+                let (sfit, dfit) = (carry.is_zero(), !borrow);
+                let w = big_to_words(&b, 2);
+                let p128 = (w[0] as u128) | ((w[1] as u128) << 64);
+                match pbits {
+                    8 => prim_forms!(c, x, p128 as u8, sfit, dfit, sum, dif, nl; a, b, nl, pbits),
+                    16 => prim_forms!(c, x, p128 as u16, sfit, dfit, sum, dif, nl; a, b, nl, pbits),
+                    32 => prim_forms!(c, x, p128 as u32, sfit, dfit, sum, dif, nl; a, b, nl, pbits),
+                    64 => prim_forms!(c, x, p128 as u64, sfit, dfit, sum, dif, nl; a, b, nl, pbits),
+                    _ => prim_forms!(c, x, p128, sfit, dfit, sum, dif, nl; a, b, nl, pbits),
+                }
+            }
+        }
+    }
+}
+
+fn boxed_negation(c: &mut Ctx) {
+    for nl in [1usize, 2, 3, 4, 7, 40] {
+        for a in c.scaled(6, |c| neg_inputs(c, nl)) {
+            if c.done() {
+                return;
+            }
+            let x = bx(&a, nl);
+            let neg = wrap_unsigned(&-BigInt::from(a.clone()), 64 * nl as u32);
+            check!(c, call(|| x.wrapping_neg()).map(|r| shape(&r)), (neg.clone(), nl); a, nl);
+            check!(c, call(|| WrappingNeg::wrapping_neg(&x)).map(|r| shape(&r)), (neg.clone(), nl); a, nl);
+            check!(c, call(|| -Wrapping(x.clone())).map(|r| shape(&r.0)), (neg.clone(), nl); a, nl);
+            check!(c, call(|| -&Wrapping(x.clone())).map(|r| shape(&r.0)), (neg.clone(), nl); a, nl);
+            check!(c, call(|| { let mut t = x.clone(); t.conditional_negate(Choice::from(1)); t }).map(|r| shape(&r)), (neg, nl); a, nl);
+            check!(c, call(|| { let mut t = x.clone(); t.conditional_negate(Choice::from(0)); t }).map(|r| shape(&r)), (a.clone(), nl); a, nl);
+        }
+    }
+}
 
 pub fn cases() -> Vec<Case> {
-    Vec::new()
+    let mut v = Vec::new();
+    case!(v, "Limb::adc (carry-in any word)", limb_adc);
+    case!(v, "Limb::sbb (borrow-in any word, mask convention)", limb_sbb);
+    case!(v, "Limb::mac (carry-in any word)", limb_mac);
+    case!(v, "Limb::overflowing_add/wrapping_/saturating_/checked_ add sub/wrapping_neg/+ -/Wrapping<Limb>/Checked<Limb>", limb_forms);
+    ucases!(v, "adc/sbb", adc_sbb; 1, 2, 3, 4, 5, 6, 7, 8, 9, 10, 11, 12, 16, 32);
+    ucases!(v, "wrapping_/saturating_/checked_ add sub (+ traits)", wrapping_checked_saturating; 1, 2, 3, 4, 6, 8, 12, 16, 32);
+    ucases!(v, "wrapping_neg/carrying_neg/wrapping_neg_if/WrappingNeg/-Wrapping", negation; 1, 2, 3, 4, 5, 6, 7, 8, 12, 16, 32);
+    ucases!(v, "operators + - += -=", operators; 1, 2, 3, 4, 8, 16, 32);
+    ucases!(v, "Wrapping<Uint> + - += -=", wrapping_wrapper; 1, 2, 3, 4, 16, 32);
+    ucases!(v, "Checked<Uint> + - += -= (sticky none)", checked_wrapper; 1, 2, 3, 4, 16, 32);
+    case!(v, "BoxedUint::adc/sbb/wrapping_/checked_ add sub/+ -/Wrapping + - (1..=4 x 1..=4 limbs, widened to the longer operand)", boxed_by_value);
+    case!(v, "BoxedUint::adc_assign/sbb_assign/+= -=/Wrapping += -= (receiver 1..=4 limbs, rhs not longer)", boxed_assign);
+    case!(v, "BoxedUint::adc_assign/sbb_assign with a longer rhs: documented panic", boxed_assign_longer_rhs);
+    case!(v, "BoxedUint add/sub forms, 5..40 limbs and very unequal precisions", boxed_large);
+    case!(v, "BoxedUint + - += -= U64", boxed_uint_rhs::<1>);
+    case!(v, "BoxedUint + - += -= U128", boxed_uint_rhs::<2>);
+    case!(v, "BoxedUint + - += -= U192", boxed_uint_rhs::<3>);
+    case!(v, "BoxedUint + - += -= U256", boxed_uint_rhs::<4>);
+    case!(v, "BoxedUint + - += -= U1024", boxed_uint_rhs::<16>);
+    case!(v, "BoxedUint + - += -= u8/u16/u32/u64/u128", boxed_primitive_rhs);
+    case!(v, "BoxedUint::wrapping_neg/WrappingNeg/-Wrapping/conditional_negate", boxed_negation);
+    v
 }
